@@ -36,8 +36,14 @@ impl U256 {
     #[verifier::external_body] pub fn one() -> (r: U256) ensures uval(&r) == 1 { unimplemented!() }
 }
 impl PartialEq for U256 { #[verifier::external_body] fn eq(&self, o: &U256) -> (r: bool) ensures r == (uval(self) == uval(o)) { unimplemented!() } }
+impl vstd::std_specs::cmp::PartialEqSpecImpl for U256 {
+    open spec fn obeys_eq_spec() -> bool { true }
+    open spec fn eq_spec(&self, o: &U256) -> bool { uval(self) == uval(o) }
+}
 impl PartialOrd for U256 {
-    #[verifier::external_body] fn partial_cmp(&self, o: &U256) -> (r: Option<Ordering>) { unimplemented!() }
+    #[verifier::external_body] fn partial_cmp(&self, o: &U256) -> (r: Option<Ordering>) ensures r == Some(if uval(self) < uval(o) { Ordering::Less } else if uval(self) == uval(o) { Ordering::Equal } else { Ordering::Greater }) { unimplemented!() }
     #[verifier::external_body] fn lt(&self, o: &U256) -> (r: bool) ensures r == (uval(self) < uval(o)) { unimplemented!() }
     #[verifier::external_body] fn gt(&self, o: &U256) -> (r: bool) ensures r == (uval(self) > uval(o)) { unimplemented!() }
+    #[verifier::external_body] fn le(&self, o: &U256) -> (r: bool) ensures r == (uval(self) <= uval(o)) { unimplemented!() }
+    #[verifier::external_body] fn ge(&self, o: &U256) -> (r: bool) ensures r == (uval(self) >= uval(o)) { unimplemented!() }
 }
